@@ -31,4 +31,6 @@ CASES = [
          old="        self.lock = threading.RLock()\n        self._subscribe = subscribe\n", new="        self._subscribe = subscribe\n\n    @property\n    def lock(self):\n        if '_lock' not in self.__dict__:\n            self.__dict__['_lock'] = threading.RLock()\n        return self.__dict__['_lock']\n")]),
     dict(expect="fire", desc="seed C43-r3b/3: window_with_time forwards elements to a snapshot of the windows outside the lock", names="K6-windows-covered", edits=[dict(file="reactivex/operators/_windowwithtime.py",
          old="            with source.lock:\n                for s in queue:\n                    s.on_next(x)", new="            with source.lock:\n                windows = list(queue)\n            for s in windows:\n                s.on_next(x)")]),
+    dict(expect="fire", desc="seed C13-r4/3: Observable.lock is a plain Lock", names="K5-one-lock-object", edits=[dict(file="reactivex/observable/observable.py",
+         old="self.lock = threading.RLock()", new="self.lock = threading.Lock()")]),
 ]
